@@ -29,8 +29,152 @@ type YieldRec struct {
 }
 
 type CoroObj struct {
-	id     int
-	parent *CoroObj
+	id      int
+	parent  *CoroObj
+	yielded bool // has handed a submission to the AIO (in the real scheduler it then waits for the next tick)
+}
+
+// subWatch: the first submission of a spawned coroutine is *in flight* from the child's yield until the store
+// (router, sender) worker reads it, which in the real kernel happens only after every runnable coroutine of the
+// tick - the parent and the siblings spawned later included - has run until it blocks. The engine runs a child to
+// completion at the spawn point; that sequentialisation is the real behaviour only if nobody else writes to what
+// the pending submission refers to inside that window. The window is watched: a write by the parent before it
+// blocks, or by a later sibling before its own first yield, to a heap cell reachable from the pending submission
+// is reported (label inflight-submission-mutated).
+type subWatch struct {
+	child *CoroObj
+	cells []watchCell
+	maps  map[*MapObj]bool
+	what  string
+}
+
+type watchCell struct {
+	obj  *Obj
+	path []int
+}
+
+func pathsOverlap(a, b []int) bool {
+	n := len(a)
+	if len(b) < n {
+		n = len(b)
+	}
+	for i := 0; i < n; i++ {
+		if a[i] != b[i] {
+			return false
+		}
+	}
+	return true
+}
+
+func (c *CoroObj) within(anc *CoroObj) bool {
+	for x := c; x != nil; x = x.parent {
+		if x == anc {
+			return true
+		}
+	}
+	return false
+}
+
+// reachable collects the heap cells a value refers to (through pointers, slices, interfaces, maps).
+func (w *subWatch) reach(v Value, seen map[*Obj]bool) {
+	switch x := v.(type) {
+	case *PtrV:
+		if x.obj != nil {
+			w.cells = append(w.cells, watchCell{x.obj, x.path})
+			if !seen[x.obj] {
+				seen[x.obj] = true
+				w.reach(x.obj.v, seen)
+			}
+		}
+	case *SliceV:
+		if x.arr != nil {
+			w.cells = append(w.cells, watchCell{x.arr, nil})
+			if !seen[x.arr] {
+				seen[x.arr] = true
+				w.reach(x.arr.v, seen)
+			}
+		}
+	case *StructV:
+		for _, f := range x.fs {
+			w.reach(f, seen)
+		}
+	case *ArrayV:
+		for _, f := range x.es {
+			w.reach(f, seen)
+		}
+	case *IfaceV:
+		if x.typ != nil {
+			w.reach(x.v, seen)
+		}
+	case *MapV:
+		if x.m != nil {
+			w.maps[x.m] = true
+			for _, e := range x.m.vs {
+				w.reach(e, seen)
+			}
+		}
+	case *TupleV:
+		for _, f := range x.vs {
+			w.reach(f, seen)
+		}
+	}
+}
+
+func (ex *Exec) watchSubmission(c *CoroObj, sub Value, kind string) {
+	if c.parent == nil || c.yielded {
+		return
+	}
+	w := &subWatch{child: c, maps: map[*MapObj]bool{}, what: kind}
+	w.reach(sub, map[*Obj]bool{})
+	ex.W.watches = append(ex.W.watches, w)
+}
+
+// closeWatches: coroutine c blocks (awaits or yields): the submissions of its children are now read by the workers.
+func (ex *Exec) closeWatches(c *CoroObj) {
+	ws := ex.W.watches[:0]
+	for _, w := range ex.W.watches {
+		if w.child.parent != c {
+			ws = append(ws, w)
+		}
+	}
+	ex.W.watches = ws
+}
+
+func (ex *Exec) writerRaces(w *subWatch) bool {
+	r := ex.W.runCoro
+	if r == nil || r.within(w.child) {
+		return false
+	}
+	if r == w.child.parent {
+		return true
+	}
+	// a later sibling (or something it spawned): only what it does before its first yield is inside the window
+	for x := r; x != nil; x = x.parent {
+		if x.parent == w.child.parent {
+			return !x.yielded
+		}
+	}
+	return false
+}
+
+func (ex *Exec) noteWrite(obj *Obj, path []int) {
+	for _, w := range ex.W.watches {
+		for _, c := range w.cells {
+			if c.obj == obj && pathsOverlap(c.path, path) && ex.writerRaces(w) {
+				ex.H.violation(ex, "inflight-submission-mutated", "a "+w.what+" submission handed to the AIO by a spawned coroutine is modified by another coroutine before the worker reads it (the worker sees the later values)")
+				return
+			}
+		}
+	}
+}
+
+func (ex *Exec) noteMapWrite(m *MapObj) {
+	for _, w := range ex.W.watches {
+		if w.maps[m] && ex.writerRaces(w) {
+			ex.H.violation(ex, "inflight-submission-mutated", "a map referred to by a "+w.what+" submission in flight is modified by another coroutine before the worker reads it")
+			return
+		}
+	}
 }
 
 type awaitRes struct {
@@ -120,6 +264,9 @@ func (ex *Exec) submit(c *CoroObj, sub Value) (Value, Value) {
 	tags := ex.fget(sub, subT, "Tags")
 	rec := &YieldRec{coro: c.id, time: w.now, sub: sub}
 	w.yields = append(w.yields, rec)
+	ex.closeWatches(c)
+	ex.watchSubmission(c, sub, map[int]string{0: "echo", 1: "router", 2: "sender", 3: "store"}[kind])
+	c.yielded = true
 	comp := ex.newStruct(compT)
 	ex.fset(comp, compT, "Kind", tt.BV(uint64(kind), 64))
 	ex.fset(comp, compT, "Tags", tags)
@@ -311,7 +458,10 @@ func init() {
 		parent := ex.coroOf(a[0])
 		ex.W.ncoro++
 		child := &CoroObj{id: ex.W.ncoro, parent: parent}
+		prevRun := ex.W.runCoro
+		ex.W.runCoro = child
 		r := ex.callValue(nil, a[1], []Value{ex.coroValue(child)}, nil)
+		ex.W.runCoro = prevRun
 		tv := r.(*TupleV)
 		return &awaitRes{val: tv.vs[0], err: tv.vs[1], done: true}
 	}
@@ -320,9 +470,11 @@ func init() {
 	}
 	intercepts[g+"SpawnAndAwait"] = func(ex *Exec, fr *Frame, a []Value, s ssa.Instruction) Value {
 		r := spawn(ex, a)
+		ex.closeWatches(ex.coroOf(a[0]))
 		return &TupleV{vs: []Value{r.val, r.err}}
 	}
 	intercepts[g+"Await"] = func(ex *Exec, fr *Frame, a []Value, s ssa.Instruction) Value {
+		ex.closeWatches(ex.coroOf(a[0]))
 		iv, ok := a[1].(*IfaceV)
 		if !ok || iv.typ == nil {
 			panic(ex.goPanic("Await on nil awaitable"))
@@ -345,7 +497,10 @@ func init() {
 		}
 		ex.W.ncoro++
 		c := &CoroObj{id: ex.W.ncoro}
+		prevRun := ex.W.runCoro
+		ex.W.runCoro = c
 		r := ex.callValue(nil, a[1], []Value{ex.coroValue(c)}, nil)
+		ex.W.runCoro = prevRun
 		_ = r
 		return &TupleV{vs: []Value{&IfaceV{typ: ex.P.errorStringType(), v: &OpaqueV{kind: "gpromise"}}, ex.tt.Bool(true)}}
 	}
@@ -387,7 +542,9 @@ func init() {
 		if len(w.times) == 0 {
 			w.advanceTime(ex)
 		}
-		return ex.coroValue(&CoroObj{id: w.ncoro})
+		root := &CoroObj{id: w.ncoro}
+		w.runCoro = root
+		return ex.coroValue(root)
 	})
 	// WarmBegin / WarmEnd: requests run between the two are an earlier part of the same server process's life:
 	// they execute sequentially on the current database (no environment steps, no faults, router: no match,
